@@ -171,21 +171,6 @@ CLAIMED.update({
 })
 
 CLAIMED.update({
-    "C01": _c("Differential execution of generated programs over the public API (30+ ops incl. setitem, ufunc where=/out=, sliding windows, "
-              "map_overlap, fancy take, views; shared subtrees; directed families) against NumPy with shrinking to the smallest failing "
-              "sub-program; Coq (coq/Properties/C01.v): the N-d array calculus (NdArray.v) — slices, broadcasting and transposes read only "
-              "in-bounds positions and the modelled __getitem__ denotes NumPy's basic slicing.  Proof-partial by nature: the property "
-              "quantifies over all API programs; the modelled fragment is the index-remapping core.",
-              "5/C01", _TB + "NumPy is the oracle; outside the modelled fragment the property is decided by execution only.",
-              "Coq array calculus for the index-remapping core + differential execution vs NumPy"),
-    "C02": _c("Coq (coq/Properties/C02.v, 29 obligations): for every modelled rewrite rule (slice identity / slice-over-slice / slice through "
-              "elemwise with broadcasting / through transpose / through expand_dims / into arange / into from_array regions, transpose "
-              "fusion, rechunk fusion / no-op / into from_array / through elemwise) `rule before = Some after -> wf before -> aeq (den "
-              "before) (den after)` for all shapes and indices.  Tie: every rewrite that fires is captured as objects; instances of a "
-              "modelled rule are reified and checked structurally inside Coq against the rule function (translation validation), ALL "
-              "instances are validated by executing before/after, and raw/simplified/lowered/fused forms are compared by value.",
-              "5/C02", _TB + "unmodelled rules (_lower rules, shuffle/concatenate/broadcast pushdowns) are validated by execution only; "
-              "harness/c02_rules.py reifier.", "Coq rule-soundness theorems + per-fired-rewrite translation validation"),
     "C03": _c("Coq (coq/Properties/C03.v): slice chunks equal produced piece lengths (C13), rechunk blocks have the requested sizes (C15), "
               "the advertised shape is the denoted shape and modelled rewrites keep advertised shape / chunks; every advertised key of "
               "generated + directed programs is executed and each block's shape/dtype compared with .chunks/.dtype.",
